@@ -286,7 +286,7 @@ func cmdCheck(args []string) int {
 			infra = true
 			continue
 		}
-		o, _, err := runReplay(rp)
+		o, sc, err := runReplay(rp)
 		if err != nil {
 			fmt.Fprintln(os.Stderr, "witness", wp, err)
 			infra = true
@@ -295,10 +295,9 @@ func cmdCheck(args []string) int {
 		fails := len(o.Violations) > 0
 		if k.Status == "fixed" && !fails {
 			// the recorded schedule is tied to the old code's step numbers:
-			// also run the witness scenario under fresh schedules
+			// also run the witness scenario under fresh schedules / orders
 			e := harness.Get(rp.Engine)
-			sc, _ := e.Decode(rp.Scenario)
-			for j := uint64(1); j <= 200 && !fails; j++ {
+			for j := uint64(1); j <= 100 && !fails; j++ {
 				c := e.Reseed(sc, j)
 				if err := e.Prepare([]interface{}{c}); err != nil {
 					break
